@@ -70,15 +70,71 @@ class Forest:
         return list(reversed(h))
 
 
+_DOC = {}
+
+
+def _load(path):
+    if path not in _DOC:
+        _DOC.clear()
+        with open(path) as f:
+            doc = json.load(f)
+        parent = {}
+        for i, nd in enumerate(doc["nodes"], 1):
+            for c in nd["kids"]:
+                parent[c] = i
+        _DOC[path] = (doc, parent)
+    return _DOC[path]
+
+
 def load_history(path, k):
-    with open(path) as f:
-        doc = json.load(f)
-    parent = {}
-    for i, nd in enumerate(doc["nodes"], 1):
-        for c in nd["kids"]:
-            parent[c] = i
+    doc, parent = _load(path)
     h = []
     while k:
         h.append({x: y for x, y in doc["nodes"][k - 1].items() if x != "kids"})
         k = parent.get(k, 0)
     return list(reversed(h))
+
+
+def merge(files, out_dir, stem, max_nodes=60000, same_key=None):
+    """Merge small forest files (path, n) into bigger ones; files with different doc[same_key] are kept apart."""
+    groups = {}
+    for path, n in files:
+        with open(path) as f:
+            doc = json.load(f)
+        key = json.dumps(doc.get(same_key), sort_keys=True) if same_key else ""
+        groups.setdefault(key, []).append((path, doc))
+    out = []
+    for key, docs in groups.items():
+        cur = None
+        for path, doc in docs:
+            if cur is None or len(cur["nodes"]) + len(doc["nodes"]) > max_nodes and cur["nodes"]:
+                if cur is not None:
+                    out.append(cur)
+                cur = {k: v for k, v in doc.items() if k not in ("roots", "nodes")}
+                cur["roots"], cur["nodes"] = [], []
+            off = len(cur["nodes"])
+            for nd in doc["nodes"]:
+                nd["kids"] = [k + off for k in nd["kids"]]
+                cur["nodes"].append(nd)
+            cur["roots"] += [r + off for r in doc["roots"]]
+            os.remove(path)
+        if cur is not None and cur["nodes"]:
+            out.append(cur)
+    res = []
+    for i, doc in enumerate(out):
+        p = os.path.join(out_dir, "%s_m%03d.json" % (stem, i))
+        with open(p, "w") as f:
+            json.dump(doc, f, separators=(",", ":"))
+        res.append((p, len(doc["nodes"])))
+    return res
+
+
+_META = {}
+
+
+def load_meta(path):
+    if path not in _META:
+        with open(path) as f:
+            doc = json.load(f)
+        _META[path] = {k: v for k, v in doc.items() if k not in ("roots", "nodes")}
+    return _META[path]
